@@ -6,6 +6,9 @@ For buffers of n = 0..5 markers with pairwise different rules, and for EVERY han
 choice per tuple of rules (consistent within a run): present or NotImplemented -- the contract says:
     cover     the handler calls, in order, belong to groups of markers that are a contiguous, in-order, repetition-free cover
               of the buffer: flattening the rule structure of the called groups gives exactly rule_0 .. rule_{n-1}
+    merges    the groups are those of leftmost-first normalisation: after each marker is pushed, the longest run of pending entries
+              ending in it for which the table has a handler is merged into one group (checked against the answers the table gave
+              in this very run; a tuple the rule needs and the code never asked about counts as a failure)
     handlers  a group of one untouched marker is resolved by that marker's own handler, a merged group by the handler the
               dispatcher answered for exactly its rule tuple
     context   every handler is called with (dispatcher, <a node>, text before, text after, previous text): the text of the last text
@@ -121,6 +124,26 @@ def build(module, sizes=(0, 1, 2, 3, 4)):
                             seen.extend(leaves(tag[1]))
                     return seen == [id(r) for r in rules]
 
+                def merges_ok(e, rules=rules):
+                    """the groups resolved are those of leftmost-first normalisation: after each marker is pushed, the LONGEST run of
+                    pending entries ending in it for which the table has a handler is merged (the table's answers are the ones this run
+                    got; a run that never asked about a tuple the rule needs cannot have followed it)"""
+                    stack = []
+                    for r in rules:
+                        stack.append(id(r))
+                        hit = None
+                        for idx in range(len(stack)):
+                            key = tuple(stack[idx:])
+                            if key not in rec['oracle']:
+                                return False
+                            if rec['oracle'][key] is not NotImplemented:
+                                hit = idx
+                                break
+                        if hit is not None:
+                            stack[hit:] = [key]
+                    want = [('merged', x) if isinstance(x, tuple) else ('own', x) for x in stack]
+                    return [c['tag'] for c in rec['calls']] == want
+
                 def context_ok(e, disp=disp):
                     for c in rec['calls']:
                         a = c['args']
@@ -139,11 +162,11 @@ def build(module, sizes=(0, 1, 2, 3, 4)):
                     got = result.items if isinstance(result, PGen) else (result.val if isinstance(result, PList) else result)
                     return isinstance(got, list) and len(got) == len(rec['yielded']) and all(x is y for x, y in zip(got, rec['yielded']))
                 env = {'__reset__': reset, 'dispatcher': disp, 'LayoutChunk': PExt('LayoutChunk', layoutchunk),
-                       'cover_ok': Helper(cover_ok), 'context_ok': Helper(context_ok), 'output_ok': Helper(output_ok),
+                       'cover_ok': Helper(cover_ok), 'merges_ok': Helper(merges_ok), 'context_ok': Helper(context_ok), 'output_ok': Helper(output_ok),
                        'no_wrong_calls': Helper(lambda e: rec['wrong'] == 0)}
                 reset()
                 cs.append(Contract(MODULE + ':walk.process_layouts',
                                    params={'last_chunk': Neighbour('before', has_before), 'chunk': Neighbour('after', has_after), 'layout_rule_chunks': Buffer()},
-                                   yields=Const(None), ensures=['cover_ok()', 'context_ok()', 'output_ok(result)', 'no_wrong_calls()'], env=env,
+                                   yields=Const(None), ensures=['cover_ok()', 'merges_ok()', 'context_ok()', 'output_ok(result)', 'no_wrong_calls()'], env=env,
                                    notes='%d pending marker(s), text before %s, text after %s' % (n, 'present' if has_before else 'missing', 'present' if has_after else 'missing')))
     return cs
